@@ -58,3 +58,10 @@ check('C11', 'exploration', 'exhaustive enumeration of the argument table (thoro
       'uninterpretable members at any position and registration in code.',
       'Quick tier samples the table (every 997th row + Hypothesis draws); the thorough tier enumerates it completely over 16 '
       'shards (exhaustive: true).')
+check('C09', 'exploration', 'model-based property testing of op histories with harness-owned schedules (simulated executor + yield-point dict) and gated real threads',
+      'Histories of push/submit/run/flush/submit-after-close on a real TaskHandler + PushService + fake channel. In the '
+      'simulated mode tasks complete only when the generated schedule says so and every access flush() makes to the '
+      'pending table, and every blocking wait, is a yield point; the real mode gates sends on the real 2-worker pool. '
+      'Invariants: sent exactly once (or 0 iff own failure), never on the pushing thread, flush returns normally only after '
+      'every accepted task finished, nothing left pending, refused visibly after close.',
+      'Tasks always finish once scheduled; blocked-flush detection polls at 4 ms (affects scheduling only).')
